@@ -1301,8 +1301,8 @@ udp_ep_init(
 	ep->rcvmax           = NNG_UDP_RECVMAX;
 	ep->copymax          = NNG_UDP_COPYMAX;
 	ep->max_peers        = NNG_UDP_MAX_PEERS;
-	if ((rv = nni_msg_alloc(&ep->rx_payload, ep->rcvmax) != 0)) {
-		NNI_FREE_STRUCTS(ep->tx_ring.descs, NNG_UDP_TXQUEUE_LEN);
+	if ((rv = nni_msg_alloc(&ep->rx_payload, ep->rcvmax)) != 0) {
+		// udp_ep_fini releases the transmit ring
 		return (rv);
 	}
 
